@@ -53,6 +53,9 @@ func parseInfo(l string) infoLine {
 	tok := strings.Fields(l)
 	for i := 0; i < len(tok); i++ {
 		switch tok[i] {
+		case "string":
+			// `info string <free text>`: nothing after it is a field
+			return il
 		case "depth":
 			if i+1 < len(tok) {
 				if v, err := strconv.Atoi(tok[i+1]); err == nil {
@@ -84,6 +87,9 @@ func lineKey(l string) string {
 	score := ""
 	tok := strings.Fields(l)
 	for i := 0; i+2 < len(tok); i++ {
+		if tok[i] == "string" {
+			break
+		}
 		if tok[i] == "score" {
 			score = tok[i+1] + " " + tok[i+2]
 			break
@@ -241,7 +247,7 @@ func compareTwins(nameA, nameB string, a, b *SearchResult, ignoreTrailingAbortLi
 	if a.Nodes != b.Nodes {
 		add("twin-nodes", fmt.Sprintf("%s searched %d nodes, %s %d", nameA, a.Nodes, nameB, b.Nodes))
 	}
-	la, lb := a.Lines, b.Lines
+	la, lb := reportLines(a.Lines), reportLines(b.Lines)
 	if ignoreTrailingAbortLine {
 		la, lb = stripAbortLine(la), stripAbortLine(lb)
 	}
@@ -257,6 +263,19 @@ func compareTwins(nameA, nameB string, a, b *SearchResult, ignoreTrailingAbortLi
 	}
 	if a.Digest != b.Digest {
 		add("twin-state", fmt.Sprintf("persistent state left behind differs: %s %s vs %s %s", nameA, a.Digest, nameB, b.Digest))
+	}
+	return out
+}
+
+// reportLines keeps the lines that report search progress (they carry a depth,
+// a node count or a variation); free text such as `info string ...` is not
+// something the statement promises to be reproducible.
+func reportLines(l []string) []string {
+	var out []string
+	for _, x := range l {
+		if il := parseInfo(x); il.hasDepth || il.hasNodes || il.hasPV {
+			out = append(out, x)
+		}
 	}
 	return out
 }
